@@ -21,7 +21,8 @@ RULE = ("Hypothesis draws a tree (depth <= 4, fan-out <= 4, empty directories, e
         "Oracle: placement function from the documentation (root = cwd/dest if write_into else cwd/dest/src.name; "
         "result = initial + ancestors(root) + copy(src -> root), nothing else, same bytes), multiset of listed paths, "
         "final tree = initial minus the subtree. Non-trivial = directory source with depth >= 2 and a destination with "
-        ">= 1 component, or an empty sub-directory, or cwd != '/'; distinct by hash of the case.")
+        ">= 1 component, or an empty sub-directory, or cwd != '/'; distinct by hash of the case. "
+        "upload_conflict: an entry of the other kind is placed on the server where the local tree has a directory / file: raises or faithful.")
 ASSUMPTIONS = [
     "client-side trees live in a MemoryPathIO (or a temp dir with PathIO in 1/4 of the cases); server on MemoryPathIO",
 ]
